@@ -456,28 +456,68 @@ fn check_camera(i: u64, r: &mut Report) {
     if !lit.is_empty() { r.nontrivial(); }
 }
 
+/// Viewports whose intersection with the frame is empty (entirely beyond the right or bottom edge, or empty as
+/// requested): setting one up and rendering through it must not panic and must leave the frame alone.
+fn check_camera_empty_viewport(i: u64, r: &mut Report) {
+    r.eval();
+    let dims = [(8u32, 8u32), (16, 9), (5, 7)][(i % 3) as usize];
+    let (l, t, rr, b) = [(10u32, 2u32, 20u32, 6u32), (2, 12, 6, 20), (20, 20, 30, 30), (3, 3, 3, 6), (2, 5, 6, 5), (16, 0, 17, 4), (0, 9, 4, 12)][(i / 3 % 7) as usize];
+    let ortho = i / 21 % 2 == 1;
+    if l.min(dims.0) < rr.min(dims.0) && t.min(dims.1) < b.min(dims.1) { r.h("empty-viewport:not-empty-on-this-frame"); return; }
+    let case = || obj! {"kind" => "camera-empty", "i" => i};
+    let tag = format!("{dims:?}|{l},{t},{rr},{b}|{}", if ortho { "ortho" } else { "persp" });
+    // (the perspective projection is set up before the viewport: perspective() derives the aspect ratio from the current
+    // viewport and asserts that it is positive, so a perspective projection cannot be requested for an empty one)
+    let cam = match caught(|| { let c = Camera::new(dims).mode(Mat4x4::<RealToReal<3, World, View>>::identity()); if ortho { c.viewport((l..rr, t..b)).orthographic(pt3(-2.0, -1.5, 0.5)..pt3(2.0, 1.5, 50.0)) } else { c.perspective(1.0, 0.5..50.0).viewport((l..rr, t..b)) } }) {
+        Ok(c) => c, Err(p) => { r.violation(format!("camera-setup-panic|empty|{tag}"), format!("setting up a camera whose viewport ({l}..{rr}, {t}..{b}) misses the {dims:?} frame panicked: {p}"), case()); return; } };
+    let verts = [vertex(pt3::<f32, World>(-1.0, -1.0, 2.0), ()), vertex(pt3(1.5, -1.0, 2.0), ()), vertex(pt3(0.0, 1.2, 2.0), ())];
+    let mut fb = Framebuf { color_buf: Buf2::<u32>::new_from(dims, std::iter::repeat(0xDEADBEEFu32)), depth_buf: Buf2::<f32>::new_from(dims, std::iter::repeat(0.0f32)) };
+    let ctx = Context { face_cull: None, depth_test: None, ..Context::default() };
+    let to_world: Mat4x4<RealToReal<3, World, World>> = Mat4x4::identity();
+    if let Err(p) = caught(|| cam.render([Tri([0, 1, 2])], verts, &to_world, &Sh, (), &mut fb, &ctx)) { r.violation(format!("camera-render-panic|empty|{tag}"), format!("Camera::render through a viewport ({l}..{rr}, {t}..{b}) that misses the {dims:?} frame panicked: {p}"), case()); return; }
+    for y in 0..dims.1 { for x in 0..dims.0 { if fb.color_buf[[x, y]] != 0xDEADBEEF { r.violation(format!("camera-outside-viewport|empty|{tag}"), format!("pixel ({x},{y}) lit although the viewport ({l}..{rr}, {t}..{b}) does not meet the {dims:?} frame"), case()); return; } } }
+    r.nontrivial();
+}
+
 /// azimuths: -180..180 in 15-degree steps, then four beyond half a turn (rotate_to must wrap them, not clamp)
 fn fp_az(i: u64) -> f32 { let k = i / 54 % 29; if k < 25 { k as f32 * 15.0 - 180.0 } else { [270.0f32, -200.0, 540.0, 725.0][(k - 25) as usize] } }
 
 /// Camera::viewport accepts every range form; whatever the spelling, the result is the request intersected with the frame.
 fn check_camera_range_forms(i: u64, r: &mut Report) {
     r.eval();
-    let dims = [(8u32, 8u32), (16, 9), (5, 7)][(i % 3) as usize];
-    let form = i / 3;
-    let base = || Camera::new(dims).mode(Mat4x4::<RealToReal<3, World, View>>::identity());
+    const NF: u64 = 14;
+    let dims = [(8u32, 8u32), (16, 9), (5, 7), (640, 480)][(i % 4) as usize];
+    let form = i / 4 % NF;
+    // builder order: the viewport set after the mode (as the demos do) or before it
+    let mode_last = i / (4 * NF) == 1;
+    let ident = || Mat4x4::<RealToReal<3, World, View>>::identity();
+    macro_rules! mk { ($vp:expr) => { caught(|| if mode_last { Camera::new(dims).viewport($vp).mode(ident()) } else { Camera::new(dims).mode(ident()).viewport($vp) }) } }
+    use re::util::rect::Rect;
     // (the camera with the requested form, the explicit rectangle it means)
     let (cam, name, rect): (Result<_, String>, &str, (u32, u32, u32, u32)) = match form {
-        0 => (caught(|| base().viewport((..6u32, 2u32..5))), "(..6, 2..5)", (0, 2, 6, 5)),
-        1 => (caught(|| base().viewport((1u32..6, ..=3u32))), "(1..6, ..=3)", (1, 0, 6, 4)),
-        2 => (caught(|| base().viewport((.., ..))), "(.., ..)", (0, 0, u32::MAX, u32::MAX)),
-        3 => (caught(|| base().viewport(..)), "..", (0, 0, u32::MAX, u32::MAX)),
-        4 => (caught(|| base().viewport((2u32.., 1u32..))), "(2.., 1..)", (2, 1, u32::MAX, u32::MAX)),
-        5 => (caught(|| base().viewport((..600u32, 3u32..460))), "(..600, 3..460)", (0, 3, 600, 460)),
-        _ => (caught(|| base().viewport((0u32..=4, 1u32..=2))), "(0..=4, 1..=2)", (0, 1, 5, 3)),
+        0 => (mk!((..6u32, 2u32..5)), "(..6, 2..5)", (0, 2, 6, 5)),
+        1 => (mk!((1u32..6, ..=3u32)), "(1..6, ..=3)", (1, 0, 6, 4)),
+        2 => (mk!((.., ..)), "(.., ..)", (0, 0, u32::MAX, u32::MAX)),
+        3 => (mk!(..), "..", (0, 0, u32::MAX, u32::MAX)),
+        4 => (mk!((2u32.., 1u32..)), "(2.., 1..)", (2, 1, u32::MAX, u32::MAX)),
+        5 => (mk!((..600u32, 3u32..460)), "(..600, 3..460)", (0, 3, 600, 460)),
+        6 => (mk!((0u32..=4, 1u32..=2)), "(0..=4, 1..=2)", (0, 1, 5, 3)),
+        // corner-pair form, also with the right edge numerically left of... smaller than the top edge (r < t)
+        7 => (mk!(vec2(1u32, 2)..vec2(5, 4)), "vec2(1,2)..vec2(5,4)", (1, 2, 5, 4)),
+        8 => (mk!(vec2(1u32, 4)..vec2(3, 7)), "vec2(1,4)..vec2(3,7)", (1, 4, 3, 7)),
+        9 => (mk!(vec2(10u32, 300)..vec2(200, 400)), "vec2(10,300)..vec2(200,400)", (10, 300, 200, 400)),
+        10 => (mk!(vec2(0u32, 5)..vec2(4, 6)), "vec2(0,5)..vec2(4,6)", (0, 5, 4, 6)),
+        // literal rectangles, partly unbounded
+        11 => (mk!(Rect { left: Some(1u32), top: Some(2), right: Some(7), bottom: None }), "Rect{1,2,7,-}", (1, 2, 7, u32::MAX)),
+        12 => (mk!(Rect { left: None, top: Some(3u32), right: Some(3), bottom: Some(6) }), "Rect{-,3,3,6}", (0, 3, 3, 6)),
+        _ => (mk!((3u32..5, 1u32..4)), "(3..5, 1..4)", (3, 1, 5, 4)),
     };
+    let name = &format!("{name}{}", if mode_last { " before mode()" } else { "" });
     let case = || obj! {"kind" => "camera-forms", "i" => i};
     let cam = match cam { Ok(c) => c, Err(p) => { r.violation(format!("camera-setup-panic|{dims:?}|{name}"), format!("Camera::viewport({name}) on a {dims:?} frame panicked: {p}"), case()); return; } };
     let (el, et, er, eb) = (rect.0.min(dims.0), rect.1.min(dims.1), rect.2.min(dims.0), rect.3.min(dims.1));
+    // (where the request misses this frame nothing can be drawn, whatever the matrix: see check_camera_empty_viewport)
+    if el >= er || et >= eb { r.h("forms:request-misses-the-frame"); return; }
     for (nx, ny) in [(-1.0f32, -1.0f32), (1.0, 1.0), (0.0, 0.5)] {
         let s = cam.viewport.apply_pt(&pt3(nx, ny, 1.0)).0;
         let want = [el as f64 + (nx as f64 + 1.0) / 2.0 * (er as f64 - el as f64), et as f64 + (ny as f64 + 1.0) / 2.0 * (eb as f64 - et as f64)];
@@ -600,7 +640,8 @@ fn run_proj(cfg: &Cfg) -> ! {
     rects.extend([(0, 480, 640, 0), (640, 0, 0, 480), (640, 480, 0, 0), (7, 2, 3, 5), (3, 5, 7, 2), (5, 5, 2, 1), (0, 7, 8, 0), (101, 75, 0, 0)]);
     rep.merge(par_range(cfg, rects.len() as u64, |i, r| { let (l, t, rr, b) = rects[i as usize]; check_viewport(l, t, rr, b, r); }));
     rep.merge(par_range(cfg, 144 * 10 * 2, check_camera));
-    rep.merge(par_range(cfg, 21, check_camera_range_forms));
+    rep.merge(par_range(cfg, 4 * 14 * 2, check_camera_range_forms));
+    rep.merge(par_range(cfg, 42, check_camera_empty_viewport));
     // FirstPerson::default() is FirstPerson::new(): same view transform, also after a translate (nothing resets the heading)
     {
         rep.eval();
@@ -635,6 +676,7 @@ fn main() {
                 "viewport" => { let v: Vec<u32> = c.get("rect").unwrap().as_arr().unwrap().iter().map(|x| x.as_u64().unwrap() as u32).collect(); check_viewport(v[0], v[1], v[2], v[3], r) }
                 "camera" => check_camera(i, r),
                 "camera-forms" => check_camera_range_forms(i, r),
+                "camera-empty" => check_camera_empty_viewport(i, r),
                 "fp-default" => { let (d, n) = (FirstPerson::default(), FirstPerson::new()); if caught(|| d.world_to_view().0) != caught(|| n.world_to_view().0) || caught(|| d.world_to_view()).is_err() { r.violation("fp-default|".into(), "FirstPerson::default() differs from new()".into(), J::Null); } }
                 "fp" => check_first_person(i, r),
                 k => machinery_error(&format!("unknown replay kind {k}")),
